@@ -343,6 +343,30 @@ Theorem C07_when_resolution_phases : forall p w Q1 Q2 w1 w2,
 Proof. exact wrun_split. Qed.
 Print Assumptions C07_when_resolution_phases.
 
+(* ... also when the world gains NEW entries E between the phases (the nested default nodes are created only after the
+   top-level ones were resolved), provided no condition of the first phase reads a node of the second set or a new entry *)
+Theorem C07_when_resolution_phases_ext : forall p w E Q1 Q2 w1 w2,
+  acyclicb p = true -> NoDup (map fst (Q1 ++ Q2)) ->
+  (forall n wt d, In (n, wt) Q1 -> In d (pdeps p n) -> ~ In d (map fst Q2) /\ entries nat d E = []) ->
+  (forall x, In x (map fst Q1) -> entries nat x E = []) ->
+  wrun p w Q1 = Done w1 -> wrun p (w1 ++ E) Q2 = Done w2 -> wrun p (w ++ E) (Q1 ++ Q2) = Done w2.
+Proof. exact wrun_split_ext. Qed.
+Print Assumptions C07_when_resolution_phases_ext.
+
+(* regression instance for the class of seeded change C07-8 (top-level nodes resolved only after the nested ones):
+   mode (0, explicit, value 0), top-level default flag (1, when "mode = 7": false), nested default extra (2, when
+   "flag = 1"). Top-level phase then nested phase, and ONE resolution of both, delete both defaults; resolving extra
+   while the doomed flag still exists keeps it (fifth fact), and the later top-level phase leaves extra behind (sixth). *)
+Example C07_when_phase_order_regression :
+  acyclicb ph_prog = true /\
+  wrun ph_prog (ph_w ++ [(1, 1)]) [(1, true)] = Done ph_w /\
+  wrun ph_prog (ph_w ++ [(2, 5)]) [(2, true)] = Done ph_w /\
+  wrun ph_prog (ph_w ++ [(1, 1)] ++ [(2, 5)]) ([(1, true)] ++ [(2, true)]) = Done ph_w /\
+  wrun ph_prog (ph_w ++ [(1, 1)] ++ [(2, 5)]) [(2, true)] = Done (ph_w ++ [(1, 1)] ++ [(2, 5)]) /\
+  wrun ph_prog (ph_w ++ [(1, 1)] ++ [(2, 5)]) [(1, true)] = Done (ph_w ++ [(2, 5)]).
+Proof. exact ph_facts. Qed.
+Print Assumptions C07_when_phase_order_regression.
+
 (* the entry of lyd_new_implicit_tree / _module / _all - only nodes the call created are queued, all marked was-true -
    never ends in an error and never with unresolved nodes: false conditions delete *)
 Theorem C07_when_resolution_implicit_entry : forall p w Q,
